@@ -23,7 +23,11 @@
 /* harness-owned exact-size heap object (symbolic size allowed): CBMC malloc / native malloc */
 #ifndef VF_REPLAY
 void *malloc(__CPROVER_size_t);
-#define VF_BN_ALLOC(T, name, nbytes)	T *name = (T *)malloc(nbytes); __CPROVER_assume(name != NULL)
+/* the size goes through a variable on purpose: CBMC then types the object as a byte array; with
+ * the size expression n*sizeof(T) it would be typed T[n], and cbmc 6.11 models byte-granular
+ * memset/memcpy/memmove (array_replace) into such an object imprecisely for W > 8 (spurious
+ * counterexamples: memset(a, 0, 16) leaving a 64-bit digit non-zero) */
+#define VF_BN_ALLOC(T, name, nbytes)	size_t name##_nbytes = (nbytes); T *name = (T *)malloc(name##_nbytes); __CPROVER_assume(name != NULL)
 #else
 #define VF_BN_ALLOC(T, name, nbytes)	T *name = (T *)vf_replay_alloc(#name, (nbytes), 0)
 #endif
@@ -59,10 +63,38 @@ typedef unsigned __CPROVER_bitvector[3 * VF_W] vf_td_t;
 #error "VF_DIGITS_VAL covers at most 32 digits"
 #endif
 
+/* Entry value of the array inside an ensures clause.  __CPROVER_old() accepts only lvalue-shaped
+ * expressions (no ?:, no calls) and is evaluated unconditionally at function entry, hence the
+ * guarded index: digit i is snapshotted only if i < n, otherwise a[0] is (the contracts require
+ * a[0] to be readable whenever they use this). */
+#define VF_DTO(a, n, i)							\
+	((((i) < BN_MAX_DIGITS) && ((size_t)(i) < (size_t)(n))) ?	\
+	    (((vf_bnv_t)__CPROVER_old((a)[((size_t)(i) < (size_t)(n) && (i) < BN_MAX_DIGITS) ? (i) : 0])) << ((VF_W * (i)) % VF_BN_VBITS)) : (vf_bnv_t)0)
+#define VF_DIGITS_OLD(a, n) (						\
+	VF_DTO(a,n,0) | VF_DTO(a,n,1) | VF_DTO(a,n,2) | VF_DTO(a,n,3) |	\
+	VF_DTO(a,n,4) | VF_DTO(a,n,5) | VF_DTO(a,n,6) | VF_DTO(a,n,7) |	\
+	VF_DTO(a,n,8) | VF_DTO(a,n,9) | VF_DTO(a,n,10) | VF_DTO(a,n,11) |	\
+	VF_DTO(a,n,12) | VF_DTO(a,n,13) | VF_DTO(a,n,14) | VF_DTO(a,n,15) |	\
+	VF_DTO(a,n,16) | VF_DTO(a,n,17) | VF_DTO(a,n,18) | VF_DTO(a,n,19) |	\
+	VF_DTO(a,n,20) | VF_DTO(a,n,21) | VF_DTO(a,n,22) | VF_DTO(a,n,23) |	\
+	VF_DTO(a,n,24) | VF_DTO(a,n,25) | VF_DTO(a,n,26) | VF_DTO(a,n,27) |	\
+	VF_DTO(a,n,28) | VF_DTO(a,n,29) | VF_DTO(a,n,30) | VF_DTO(a,n,31))
+
+/* bn_t: current value by macro; entry value through ONE snapshot of the whole object:
+ *     vf_bn_val(__CPROVER_old(*bn))            (spec function, by-value struct)       */
 #define VF_BN_VAL(s)	VF_DIGITS_VAL((s).num, (s).digits)
 #define VF_BN_WF(s)	((s).count >= 1 && (s).count <= BN_MAX_DIGITS &&	\
 	(s).digits <= (s).count &&						\
 	((s).digits == 0 || (s).num[(s).digits - 1] != 0))
+static inline vf_bnv_t
+vf_bn_val(bn_t s) {
+	vf_bnv_t v = 0;
+	for (size_t i = 0; i < BN_MAX_DIGITS; i ++)
+		if (i < s.digits)
+			v |= (((vf_bnv_t)s.num[i]) << (VF_W * i));
+	return (v);
+}
+#define VF_BN_OLDVAL(p)	vf_bn_val(__CPROVER_old(*(p)))
 /* capacity modulus of s */
 #define VF_BN_CAP(s)	VF_POW2W((s).count)
 
